@@ -5,7 +5,7 @@ From V Require Import base.Cal gen.ParseTables parse.Lex parse.Prim parse.Ymd pa
                       parse.ParseSpec parse.YearThm parse.RenderIso parse.RenderName parse.FracFacts
                       parse.RenderUtc parse.RenderRefuted parse.RenderFrac parse.RenderCommaMon parse.RenderCommaMonth
                       parse.RenderCompact parse.Render12HM parse.Render12HMS parse.RenderOff parse.RenderCtime
-                      parse.RenderRfc parse.RenderComma12 parse.RenderCommaDefs parse.RenderOffDefs parse.Render12Defs parse.RenderMisc parse.RenderFlags parse.RenderOff4.
+                      parse.RenderRfc parse.RenderComma12 parse.RenderCommaDefs parse.RenderOffDefs parse.Render12Defs parse.RenderMisc parse.RenderFlags parse.RenderOff4 parse.Render12H.
 Import ListNotations.
 Open Scope Z_scope.
 
@@ -206,6 +206,14 @@ Theorem C02_parse_render_iso_offset4 : forall j tf d o df cy loc n0 n1 yf ig,
           (if ig then ZNaive else zone_of_off (off_secs o)) 0 false [].
 Proof. exact parse_render_iso_offset4_lemma. Qed.
 Print Assumptions C02_parse_render_iso_offset4.
+
+(* 2 templates: YYYY-MM-DD hh AM / hhAM (hour only; minute, second, microsecond from the default) *)
+Theorem C02_parse_render_12h_h : forall spaced d o df cy loc n0 n1 yf ig,
+  valid_dt d = true -> valid_dt df = true ->
+  parse (opts_df0 yf ig df cy loc n0 n1) (render (TDT DIso JSpace (T12H spaced) ONone) d o)
+  = OutOk (expected_dt (TDT DIso JSpace (T12H spaced) ONone) d df) ZNaive 0 false [].
+Proof. exact parse_render_12h_h_lemma. Qed.
+Print Assumptions C02_parse_render_12h_h.
 
 (* F-C02-padyear: inside the complement of the guard the round trip fails on the faithful model
    ("25 Sep 0099" and "Sat Sep 25 10:36:28 0099" are read as 1999) *)
